@@ -13,6 +13,11 @@ import json, os, subprocess, sys, time
 V = os.path.dirname(os.path.dirname(os.path.abspath(__file__)))
 WT = "/tmp/wt/base"
 os.makedirs("/tmp/seed_tmp", exist_ok=True)
+if not os.path.isdir(WT):
+    # scratch worktree of /repo (outside /repo and /verif); remove it afterwards with `git -C /repo worktree remove --force /tmp/wt/base`
+    os.makedirs(os.path.dirname(WT), exist_ok=True)
+    subprocess.run(["git", "-C", "/repo", "worktree", "add", "--detach", "-q", WT, "HEAD"], check=True)
+    subprocess.run(["cp", "/repo/Cargo.lock", WT], check=False)
 ENV = dict(os.environ, CARGO_NET_OFFLINE="true", TMPDIR="/tmp/seed_tmp")
 OUT = os.path.join(V, "seeded", "own_mutants.json")
 
